@@ -90,7 +90,14 @@ func H_c07(p []int) {
 		w2, _ := wfls(red)
 		vAssert(w2, "C07/redact-wf")
 		vAssert(bytesEq(delEnv(red), delEnv(s)), "C07/redact-keeps-safe-text")
-		vAssert(bytesEq(str, strip(s)), "C07/strip-exact")
+		// "removes exactly the delimiters" and "leaves no marker" can both
+		// hold only if removing the delimiters does not itself assemble a
+		// marker from stray partial bytes around them (never the case for a
+		// string produced by the library: C10's '?' after a truncated tail);
+		// otherwise only the second clause is checked (above)
+		if !hasMarker(strip(s)) {
+			vAssert(bytesEq(str, strip(s)), "C07/strip-exact")
+		}
 	}
 	vCover(wf, "well-formed-input")
 	vCover(!wf, "ill-formed-input")
